@@ -5,7 +5,7 @@ from common import fresh_dir, save_replay, ToolError, log, WORK
 
 C04 = ["C04_Fresh", "C04_Url", "C04_Flattened", "C04_AlgMatchesKey", "C04_JwkOnlyForNewAccount",
        "C04_KidIsAccountUrl", "C04_SigUnderRecordedKey", "C04_KeyChangeInner", "C04_Eab"]
-C08 = ["C08_NoResendAfterFailure", "C08_RetriesRecoverable", "C08_AtMost10", "C08_RetryOnlyRecoverable", "C08_SameContent", "C08_NewestNonce", "C08_NoSuccessOnError",
+C08 = ["C08_FailureEndsAttempt", "C08_NoResendAfterFailure", "C08_RetriesRecoverable", "C08_AtMost10", "C08_RetryOnlyRecoverable", "C08_SameContent", "C08_NewestNonce", "C08_NoSuccessOnError",
        "C08_NoProblemDocFails", "C08_PollAtMost20", "C08_ClassifyRecoverable"]
 
 MC_CFG = """SPECIFICATION Spec
@@ -59,7 +59,7 @@ def model_check(tag, tier):
         raise ToolError("vacuity: retry-exhaustion / success-after-retry states are unreachable in the model")
     # the two departures the code had before commit 7734dc6 must be caught by the model
     devs = {}
-    for d in ("NonceNotCleared", "SendWithoutNonce", "NoRefetchOnRetry", "PollSwallowsFailure"):
+    for d in ("NonceNotCleared", "SendWithoutNonce", "NoRefetchOnRetry", "PollSwallowsFailure", "FailureOnlyLogged"):
         rd = tlc.model_check("AcmeHttp", MC_CFG % dict(p, dev='{"%s"}' % d, props=""), tag + "_dev", workers=4, timeout=600)
         devs[d] = "NoBad" in rd["violated"]
         if not devs[d]:
